@@ -154,5 +154,5 @@ def run(ctx):
     _c03.run(Proxy(ctx, ("C03-body", "C03-eob", "C03-trl", "C03-split"), "C01-q"))
     _c12.run(Proxy(ctx, ("C12-a", "C12-d"), "C01-v"))
     _c10.run(Proxy(ctx, ("C10-a", "C10-b"), "C01-v"))       # sender and receiver account for and compare the section size alike
-    _c14.run(Proxy(ctx, ("C14-a", "C14-b", "C14-e"), "C01-w"))
+    _c14.run(Proxy(ctx, ("C14-a", "C14-b", "C14-e"), "C01-w", exclude=("h3_datagram",)))     # datagrams are not messages
     _c17.run(Proxy(ctx, ("C17-a", "C17-b"), "C01-t"))
